@@ -134,6 +134,23 @@ def rewrite(src):
                     node.body = [ast.If(test=ast.UnaryOp(op=ast.Not(), operand=inner.test), body=[ast.Continue()], orelse=[])] + inner.body
                 return node
         return ast.unparse(ast.fix_missing_locations(Inv().visit(tree))) + "\n"
+    if mode == "annotate-params":
+        for node in ast.walk(tree):
+            if isinstance(node, (ast.FunctionDef, ast.AsyncFunctionDef)):
+                for a in node.args.args + node.args.kwonlyargs:
+                    if a.arg not in ("self", "cls") and a.annotation is None:
+                        a.annotation = ast.Constant("object")
+                if node.returns is None and node.name != "__init__":
+                    node.returns = ast.Constant("object")
+        return ast.unparse(ast.fix_missing_locations(tree)) + "\n"
+    if mode == "reverse-defs":
+        for node in ast.walk(tree):
+            if isinstance(node, ast.ClassDef):
+                defs = [st for st in node.body if isinstance(st, (ast.FunctionDef, ast.AsyncFunctionDef)) and not st.decorator_list]
+                if len(defs) > 1:
+                    it = iter(reversed(defs))
+                    node.body = [next(it) if (isinstance(st, (ast.FunctionDef, ast.AsyncFunctionDef)) and not st.decorator_list) else st for st in node.body]
+        return ast.unparse(ast.fix_missing_locations(tree)) + "\n"
     if mode == "logs":
         has_logger = "_LOGGER" in src
         for node in ast.walk(tree):
